@@ -49,6 +49,8 @@ type Input struct {
 	Srcs    []string `json:"srcs,omitempty"`
 	N       int      `json:"n,omitempty"`
 	After   int      `json:"after,omitempty"`
+	// lim / flood: long call sequences, run-length described (flood also uses Payload)
+	Segs []Seg `json:"segs,omitempty"`
 }
 
 type DObs struct {
@@ -61,13 +63,27 @@ type DObs struct {
 }
 
 type recChan struct {
-	mu  sync.Mutex
-	evs []event.Event
+	mu      sync.Mutex
+	evs     []event.Event
+	discard bool // long runs: only remember whether a request event was seen
+	saw     bool
+}
+
+func isRequest(e event.Event) bool {
+	switch e.Get("type") {
+	case "get-request", "get-next-request", "set-request":
+		return true
+	}
+	return false
 }
 
 func (c *recChan) Send(e event.Event) {
 	c.mu.Lock()
-	c.evs = append(c.evs, e)
+	if c.discard {
+		c.saw = c.saw || isRequest(e)
+	} else {
+		c.evs = append(c.evs, e)
+	}
 	c.mu.Unlock()
 }
 
@@ -81,9 +97,11 @@ func (c *recChan) reset() {
 func (c *recChan) sawRequest() bool {
 	c.mu.Lock()
 	defer c.mu.Unlock()
+	if c.saw {
+		return true
+	}
 	for _, e := range c.evs {
-		switch e.Get("type") {
-		case "get-request", "get-next-request", "set-request":
+		if isRequest(e) {
 			return true
 		}
 	}
@@ -703,12 +721,32 @@ func main() {
 		inputs = append(inputs, Input{Part: "consts"})
 		inputs = append(inputs, corpus()...)
 		inputs = append(inputs, fieldCorpus(r)...)
-		per, maxLen, nrate, nconc, nsrc := 150, 200, 250, 6, 60
+		per, maxLen, nrate, nconc, nsrc := 110, 200, 200, 6, 60
 		switch o.Tier {
 		case "thorough":
 			per, nrate, nconc, nsrc = 1600, 2500, 40, 80
 		case "search":
 			per, nrate, nconc, nsrc = 500, 600, 15, 80
+		}
+		// long histories: one flooding address, alone and among up to 5000 others
+		flood := 10000
+		if o.Tier == "thorough" {
+			flood = 100000
+		}
+		for _, others := range []int{0, 1, 40, 1000, 5000} {
+			inputs = append(inputs, Input{Part: "lim", Segs: genSegs(r, flood, others)})
+		}
+		for i := 0; i < 6; i++ {
+			inputs = append(inputs, Input{Part: "lim", Segs: genSegs(r, r.PickInt([]int{4090, 4097, 5000, 8200, 12300}), r.PickInt([]int{0, 1, 2, 7, 100, 600}))})
+		}
+		for _, svc := range []string{"tftp", "memcached", "snmp", "counterstrike"} {
+			p := floodPayload[svc]
+			if svc == "snmp" {
+				p = snmpRaw(snmpFields{version: [2]int64{0, 1}, reqid: [2]int64{7, 1}, errStatus: [2]int64{0, 1}, errIndex: [2]int64{0, 1}, pduTag: 0xa0})
+			}
+			for _, others := range []int{0, r.PickInt([]int{1, 3, 50}), 5000} {
+				inputs = append(inputs, Input{Part: "flood", Svc: svc, Payload: p, Segs: genSegs(r, flood, others)})
+			}
 		}
 		for i := 0; i < nconc; i++ {
 			for _, svc := range []string{"tftp", "memcached", "snmp", "counterstrike"} {
@@ -727,7 +765,8 @@ func main() {
 	}
 
 	distS, distR, distX := map[string]int{}, map[string]int{}, map[string]int{}
-	var concCases []hx.Case
+	distL, distF := map[string]int{}, map[string]int{}
+	var concCases, limCases, floodCases []hx.Case
 	extra := map[string]interface{}{"interval_ns": interval, "burst": burst}
 	// snmp payloads are first handled in a child process (see screen.go): one that ends
 	// the process is not run here; its case is reported as a crash
@@ -744,7 +783,7 @@ func main() {
 			for j, d := range in.H {
 				sp, refs = append(sp, d.Payload), append(refs, spRef{i, j})
 			}
-		case "conc":
+		case "conc", "flood":
 			sp, refs = append(sp, in.Payload), append(refs, spRef{i, 0})
 		}
 	}
@@ -765,9 +804,9 @@ func main() {
 		var ins []Input
 		var idx []int
 		for i, in := range inputs {
-			if in.Part == "conc" {
+			if in.Part == "conc" || in.Part == "flood" {
 				if why, bad := fatalCase[i]; bad {
-					concRes[i] = concResult{Obs: make([]ConcObs, len(in.Srcs)), Crash: why}
+					concRes[i] = concResult{Obs: make([]ConcObs, len(in.Srcs)), Flood: &FloodObs{}, Crash: why}
 				} else {
 					ins, idx = append(ins, in), append(idx, i)
 				}
@@ -863,7 +902,35 @@ func main() {
 					distX["source:responses>burst"]++
 				}
 			}
-			concCases = append(concCases, hx.Case{ID: id, Kind: "conc-" + in.Svc, Input: in, Obs: obs, Crash: crash, Coq: coqConcCase(id, in, obs)})
+			concCases = append(concCases, hx.Case{ID: id, Kind: "conc-" + in.Svc, Input: in, Obs: obs, Crash: crash, Coq: coqConcCase(id, in, obs, concRes[inIdx].ElapsedNs)})
+		case "flood":
+			id := len(floodCases)
+			res := concRes[inIdx]
+			distF[in.Svc]++
+			if len(res.Flood.Rows) > 0 {
+				distF[fmt.Sprintf("flooder:datagrams>=%d", res.Flood.Rows[0][0]/1000*1000)]++
+				distF[fmt.Sprintf("flooder:responses=%d", res.Flood.Rows[0][1])]++
+			}
+			floodCases = append(floodCases, hx.Case{ID: id, Kind: "flood-" + in.Svc, Input: in, Obs: res.Flood, Crash: res.Crash, Coq: coqFloodCase(id, in, *res.Flood)})
+		case "lim":
+			id := len(limCases)
+			ob := runLim(in)
+			keys := 0
+			for _, sg := range in.Segs {
+				if sg.First+sg.Keys-1 > keys {
+					keys = sg.First + sg.Keys - 1
+				}
+			}
+			switch {
+			case keys == 0:
+				distL["flooder-alone"]++
+			case keys <= 100:
+				distL["others<=100"]++
+			default:
+				distL["others>100"]++
+			}
+			distL[fmt.Sprintf("flooder:grants=%d", ob.Flood)]++
+			limCases = append(limCases, hx.Case{ID: id, Kind: "lim", Input: in, Obs: ob, Coq: coqLimCase(id, in, ob)})
 		default:
 			hx.Fatal("unknown part %q", in.Part)
 		}
@@ -878,5 +945,11 @@ func main() {
 	}
 	if len(concCases) > 0 || o.Only == "" {
 		hx.Write(o, "C10", "conc", header, "case", concCases, distX, nil, 100)
+	}
+	if len(limCases) > 0 || o.Only == "" {
+		hx.Write(o, "C10", "lim", header, "case", limCases, distL, nil, 3)
+	}
+	if len(floodCases) > 0 || o.Only == "" {
+		hx.Write(o, "C10", "flood", header, "case", floodCases, distF, nil, 100)
 	}
 }
